@@ -4,6 +4,7 @@ import AmrK.ColumnAffine
 import AmrK.Chunks
 import AmrK.ChunksCover
 import AmrK.Basic
+import AmrK.MeetsProofs
 import AmrK.Obligations.MandolineLiteral
 /-! # C16 — mandoline's plotfile-format slice is a valid 2D plotfile of the plane data
 
@@ -77,5 +78,21 @@ theorem written_headers_read_back (H : Header.HData) (hg : H.Good) (nf : Nat) (r
     Header.parse (Header.render H) none = .ok (H.meta H.levels.length) ∧
       Taste.parseCellH (Taste.renderCellH nf rows) nf = .ok (rows.map Taste.BoxRow.entry) :=
   ⟨Header.parse_render H hg, Taste.parseCellH_render nf rows hr⟩
+
+/-- **every box the plane meets, each exactly once**: along the normal through any in-plane cell the boxes of a level
+    are stacked face to face (`f₀ < f₁ < … < fₙ`); for every plane position in the closed domain - inside a box, on a
+    face shared by two boxes, on either face of the domain - the test of `write_cell_data_at_level` selects exactly one
+    box of the stack (exact arithmetic; the executable test is compared with the boxes every written slice lists) -/
+theorem each_box_once (fs : List Rat) (hs : fs.Pairwise (· < ·)) (g G pos : Rat) (hlen : 2 ≤ fs.length)
+    (hg : fs.head? = some g) (hG : fs.getLast? = some G) (h1 : g ≤ pos) (h2 : pos ≤ G) :
+    (Meets.selected G pos fs).length = 1 :=
+  Meets.selected_once fs hs g G pos hlen hg hG h1 h2
+
+/-- a plane on a face shared by two boxes belongs to the upper box only -/
+theorem shared_face_upper (G a b c : Rat) (hab : a < b) (hbc : b < c) (hc : c ≤ G) :
+    Meets.meets G b a b = false ∧ Meets.meets G b b c = true := Meets.shared_face G a b c hab hbc hc
+
+example : Meets.selected 3 1 [0, 1, 2, 3] = [(1, 2)] ∧ Meets.selected 3 3 [0, 1, 2, 3] = [(2, 3)] ∧
+    Meets.selected 3 0 [0, 1, 2, 3] = [(0, 1)] := by decide +kernel
 
 end C16
